@@ -176,6 +176,80 @@ example : combineBcs [([5, 2, 7], [50, 20, 70]), ([2, 9, 5], [(21 : Int), 90, 51
     .ok ([2, 5, 7, 9], [20, 50, 70, 90]) := rfl
 example : combineBcs [([5, 2], [(50 : Int)])] = .error .assertion := rfl
 
+/-! ## boundary dofs: faces of the tensor-product index set -/
+
+section faces
+open Pyiga.Slice Pyiga.Index
+
+/-- ★ **`boundary_dofs_spec`** (unflipped face, any number of axes, any sizes).  For a valid axis
+`ax` of extent `n` and `i < n`, `slice_indices(ax, i, shape)` lists exactly the multi-indices `I`
+with all digits in range (`Below I shape`) and `I[ax] = i`, each exactly once; raveled, the list
+is strictly increasing (= row-major order of the remaining axes, and no dof twice) and its
+members are exactly the mixed-radix numbers `to_seq I shape` of those multi-indices. -/
+theorem boundary_dofs_spec (shape : List Nat) (ax i n : Nat) (hax : shape[ax]? = some n) (hi : i < n) :
+    (sliceMulti ax i shape none).Nodup ∧
+    (∀ I, I ∈ sliceMulti ax i shape none ↔ Below I shape ∧ I[ax]? = some i) ∧
+    (sliceRavel ax i shape none).Pairwise (· < ·) ∧
+    (∀ v, v ∈ sliceRavel ax i shape none ↔ ∃ I, Below I shape ∧ I[ax]? = some i ∧ toSeq I shape = v) := by
+  have hF : Factors ((shape.map List.range).set ax [i]) shape :=
+    factors_set _ _ ax i (factors_range shape) (fun m hm => by
+      have : m = n := by rw [hax] at hm; exact (Option.some.inj hm).symm
+      omega)
+  have hpw : (sliceRavel ax i shape none).Pairwise (· < ·) := product_toSeq_pairwise _ _ hF
+  have hmem : ∀ I, I ∈ sliceMulti ax i shape none ↔ Below I shape ∧ I[ax]? = some i := fun I => by
+    unfold sliceMulti axDofs
+    rw [mem_product, picks_face shape ax i I n hax hi]
+  refine ⟨?_, hmem, hpw, fun v => ?_⟩
+  · have hnd : (sliceRavel ax i shape none).Nodup := hpw.imp (fun h => Nat.ne_of_lt h)
+    exact List.Nodup.of_map _ hnd
+  · unfold sliceRavel
+    rw [List.mem_map]
+    constructor
+    · rintro ⟨I, hI, rfl⟩
+      exact ⟨I, ((hmem I).1 hI).1, ((hmem I).1 hI).2, rfl⟩
+    · rintro ⟨I, hb, hax', rfl⟩
+      exact ⟨I, (hmem I).2 ⟨hb, hax'⟩, rfl⟩
+
+/-- ★ the face has `∏_{k ≠ ax} shape[k]` dofs, flipped or not. -/
+theorem boundary_dofs_count (shape : List Nat) (ax i : Nat) (hax : ax < shape.length)
+    (flip : Option (List Bool)) :
+    (sliceMulti ax i shape flip).length = prod (shape.eraseIdx ax) ∧
+    (sliceRavel ax i shape flip).length = prod (shape.eraseIdx ax) := by
+  have h0 : (sliceMulti ax i shape none).length = prod (shape.eraseIdx ax) := by
+    unfold sliceMulti axDofs
+    rw [length_product, prod_face shape ax i hax]
+  cases flip with
+  | none => exact ⟨h0, by simp [sliceRavel, h0]⟩
+  | some fl =>
+    have h1 : (sliceMulti ax i shape (some fl)).length = prod (shape.eraseIdx ax) := by
+      rw [sliceMulti_flip, List.length_map, h0]
+    exact ⟨h1, by simp [sliceRavel, h1]⟩
+
+/-- ★ **flip law**: the `k`-th dof of the flipped face is the `k`-th dof of the unflipped face
+with the coordinate of every flipped axis `j` replaced by `shape[j]-1-c` (axis `ax` is never
+flipped).  (`Pyiga.Slice.sliceMulti_flip`; this is what `join_boundaries` relies on, C14.) -/
+theorem boundary_dofs_flip (shape : List Nat) (ax i : Nat) (fl : List Bool) :
+    sliceMulti ax i shape (some fl) =
+      (sliceMulti ax i shape none).map (flipCoords shape (insertFalse ax fl)) ∧
+    sliceRavel ax i shape (some fl) =
+      (sliceMulti ax i shape none).map (fun I => toSeq (flipCoords shape (insertFalse ax fl) I) shape) := by
+  refine ⟨sliceMulti_flip ax i shape fl, ?_⟩
+  unfold sliceRavel
+  rw [sliceMulti_flip, List.map_map]
+  rfl
+
+/-- `boundary_dofs(kvs, (bdax, side), ravel=True, flip)` is the face `0` (side 0) resp. `n-1`
+(side 1, `idx = -1` wrapped) of the dof-count tuple whenever the axis is non-empty. -/
+theorem boundary_dofs_face (N : List Nat) (bdax side n : Nat) (h : N[bdax]? = some n) (hn : 0 < n) :
+    boundaryDofs N bdax side none = .ok (sliceRavel bdax (if side = 0 then 0 else n - 1) N none) :=
+  boundaryDofs_eq N bdax side n none h hn (fun _ hfl => by cases hfl)
+
+example : sliceRavel 1 2 [2, 3, 2] none = [4, 5, 10, 11] := by decide
+example : sliceMulti 1 2 [2, 3, 2] (some [true, false]) = [[1,2,0],[1,2,1],[0,2,0],[0,2,1]] := by decide
+example : boundaryDofs [2, 3, 2] 1 1 (some [false, true]) = .ok [5, 4, 11, 10] := by decide
+
+end faces
+
 /-! ## compute_initial_condition_01 -/
 
 /-- ★ **`initial_condition_01`** (over any field).  When `compute_initial_condition_01` returns
